@@ -184,6 +184,7 @@ def parse_sql(sql, dialect='mindsdb'):
     sql = re.sub(r'[\s;]+$', '', sql)
 
     lexer, parser = get_lexer_parser(dialect)
+    parser.text = sql
     tokens = lexer.tokenize(sql)
     ast = parser.parse(tokens)
 
